@@ -238,6 +238,10 @@ class Producer(object):
         except Exception:
             return fail()
 
+        if self.stopping:
+            # Nothing is dispatched any more: don't leave the caller waiting
+            return fail(CancelledError(request_sent=False))
+
         d = Deferred(self._cancel_send_messages)
         self._batch_reqs.append(SendRequest(topic, key, msgs, d))
         self._waitingMsgCount += msg_cnt
